@@ -14,6 +14,20 @@ What runs (DESIGN 5/C19):
   * Correspondence corr:C19:GENRUN -- sequential hook generation (`get_structure_hook` / `get_unstructure_hook`)
     on the real converter enters / detects cycles / exits exactly as the Lean generation machine
     (`tstep`/`gstep`, theorems C19_no_false_cycle / C19_serialisable) does on the abstract graph.
+  * Correspondence corr:C19:GENSCHED -- EVERY real concurrent run (and the sequential reference run) is observed as
+    the global sequence of accesses to the shared memo tables and the working set (lru read hit/miss, direct-table
+    read, test-and-add, remove, direct-table write, cache_clear, lru write; harness/sched.py: proxy around the
+    converter's own lru wrapper, tracing dict with its own `_direct_dispatch`, wrapper of `dispatch_without_caching`
+    installed on the class after import, tracing set -- /repo untouched).  Exactly that interleaving is replayed on
+    the Lean machine (`GENRUN … (upto …)`: one item per observed access, the thread runs up to and including its next
+    access; `replayR` on the refined machine with attribute slot and set identities, theorems C19_replay_is_schedule,
+    C19_slot_unobservable): every access, its answer, the slot of the thread afterwards and the outcome of every
+    top-level dispatch (the machine's `calls` = the thread's top-level dispatches, including the run-time dispatches
+    of late-bound references) must agree; the expanded schedule is re-submitted through `(sched …)` to the abstract
+    machine for the first schedule of every graph.
+  * Correspondence corr:C19:SWAP -- the first pass of the real `include_subclasses(K0, conv, union_strategy=…)` on
+    generated class hierarchies (the only place where cattrs swaps the working set) against the refined machine with
+    `swap` operations (theorems C19_swap_*).
 Partial: interleavings are explored at statement (line-event) granularity, atomicity of single dict / set /
 lru_cache operations under the GIL is assumed.
 A scheduler timeout is an infrastructure error (exit 2), never a violation.
@@ -89,12 +103,13 @@ def ty_src(t):
 def graph_source(g):
     out = ["from __future__ import annotations", "import attrs, dataclasses", "from typing import Optional, TypedDict", ""]
     for i, c in enumerate(g["classes"]):
+        base = f"(K{c['base']})" if c.get("base") is not None else ""
         if c["kind"] == "attrs":
             out.append("@attrs.define")
-            out.append(f"class K{i}:")
+            out.append(f"class K{i}{base}:")
         elif c["kind"] == "dc":
             out.append("@dataclasses.dataclass")
-            out.append(f"class K{i}:")
+            out.append(f"class K{i}{base}:")
         else:
             out.append(f"class K{i}(TypedDict):")
         for name, t in c["fields"]:
@@ -116,6 +131,22 @@ class World:
         self.cls = [getattr(self.mod, f"K{i}") for i in range(len(g["classes"]))]
         self.ix = {id(c): i for i, c in enumerate(self.cls)}
         self.conv = Converter()
+        self.instrumented = sched.instrument_converter(self.conv)   # memo-table tracing (corr:C19:GENSCHED)
+
+    def abstract(self, t):
+        """real type object -> abstract type of the graph (None: not a node of the model's type graph)"""
+        i = self.ix.get(id(t))
+        if i is not None:
+            return ["ref", i]
+        import typing
+        org, args = typing.get_origin(t), typing.get_args(t)
+        if org is list and len(args) == 1 and id(args[0]) in self.ix:
+            return ["list", self.ix[id(args[0])]]
+        if org is dict and len(args) == 2 and args[0] is str and id(args[1]) in self.ix:
+            return ["dict", self.ix[id(args[1])]]
+        if org is typing.Union and len(args) == 2 and args[1] is type(None) and id(args[0]) in self.ix:
+            return ["opt", self.ix[id(args[0])]]
+        return None
 
     def ty(self, t):
         if t == "int":
@@ -334,13 +365,34 @@ def model_graph(g, direction):
             nodes[ids[key]] = node
         return ids[key]
 
+    def td_identity(t, seen=()):
+        """is the unstructure hook of field type `t` the identity function? (int / str, and TypedDicts all of whose
+        fields are)"""
+        if isinstance(t, str):
+            return True
+        if t[0] != "ref" or g["classes"][t[1]]["kind"] != "td" or t[1] in seen:
+            return False
+        return all(td_identity(ft, seen + (t[1],)) for _, ft in g["classes"][t[1]]["fields"])
+
+    def all_fields(c):
+        return (all_fields(g["classes"][c["base"]]) if c.get("base") is not None else []) + c["fields"]
+
     for i, c in enumerate(g["classes"]):
-        refs = [t for _, t in c["fields"] if not isinstance(t, str)]
+        refs = [t for _, t in all_fields(c) if not isinstance(t, str)]
         if c["kind"] == "td":
             if direction == "u":
-                # typeddicts.make_dict_unstructure_fn: a first loop up to the first non-identity handler, then all
-                edges = [(tid(t), 1) for t in refs[:1]] + [(tid(t), 1) for t in refs]
-                nodes[i] = (1, 1, 0, edges)
+                # typeddicts.make_dict_unstructure_fn: a first loop up to (and including) the first attribute whose
+                # handler is not `identity`; if there is none the factory returns `identity` at once, else a second
+                # loop over all attributes
+                first = []
+                for t in refs:
+                    first.append(t)
+                    if not td_identity(t):
+                        break
+                else:
+                    nodes[i] = (1, 1, 0, [(tid(t), 1) for t in first])
+                    continue
+                nodes[i] = (1, 1, 0, [(tid(t), 1) for t in first] + [(tid(t), 1) for t in refs])
             else:
                 nodes[i] = (0, 1, 0, [(tid(t), 0) for t in refs])
         else:
@@ -398,6 +450,329 @@ def genrun_check(drv, chk, g, rng):
     return None
 
 
+# ------------------------------------------------------------------------------------------------ GENSCHED
+
+class Unmodelled(Exception):
+    pass
+
+
+def gensched_extract(w, glog, tidmap, first_pass_only=False):
+    """Global access log of ONE run -> per direction ('s' / 'u'): the model graph, the per-thread top-level
+    dispatches (the machine's `calls`), their outcomes, and the global sequence of accesses to nodes of the graph
+    [(tid, text)].  Raises Unmodelled if the run did something the machine has no step for."""
+    nthreads = max(tidmap.values()) + 1
+    msd_dir = {id(w.conv._structure_func): "s", id(w.conv._unstructure_func): "u"}
+    D = {}
+    for d in ("s", "u"):
+        nodes, tidf = model_graph(w.g, d)
+        D[d] = {"nodes": nodes, "tidf": tidf, "events": [], "calls": [[] for _ in range(nthreads)],
+                "outs": [[] for _ in range(nthreads)], "extra": {}, "views": []}
+    stacks = [[] for _ in range(nthreads)]          # per thread: open dispatches [direction, node|None, kind]
+    # the attribute slot of every thread, rebuilt from the log alone: slot[t] = set identity | None, members by identity
+    slot = [None] * nthreads
+    members = {}
+    pending = [[] for _ in range(nthreads)]         # accesses of thread t whose slot view is not final yet
+    got_attr_err = [False] * nthreads
+
+    def view(t):
+        if slot[t] is None:
+            return "absent"
+        return "(" + " ".join(map(str, sorted(w.ix.get(id(c), 999) for c in members.get(slot[t], ())))) + ")"
+
+    def emit(d, t, text):
+        D[d]["events"].append((t, text))
+        D[d]["views"].append(None)
+        pending[t].append((d, len(D[d]["events"]) - 1))
+
+    def finalize(t):
+        for d, k in pending[t]:
+            D[d]["views"][k] = view(t)
+        pending[t].clear()
+    # Types outside the class graph whose first use REGISTERS DIRECT (and so clears the lru for everybody): the bare
+    # `list` / `dict` a late-bound `converter.unstructure` meets by run-time class.  They are leaves of the model
+    # graph with direct = 1 (their nested dispatches are of types outside the graph).
+    for _rt, op, key, _ans, msd in glog:
+        if op == "dset" and id(msd) in msd_dir and w.abstract(key) is None:
+            R = D[msd_dir[id(msd)]]
+            if id(key) not in R["extra"]:
+                R["extra"][id(key)] = len(R["nodes"])
+                R["nodes"].append((0, 0, 1, []))
+
+    def node_of(d, typ):
+        a = w.abstract(typ)
+        if a is None:
+            return D[d]["extra"].get(id(typ))
+        return D[d]["tidf"](a)
+
+    for rawtid, op, key, ans, msd in glog:
+        if rawtid not in tidmap:
+            raise Unmodelled(f"access by an unknown thread {rawtid}")
+        t = tidmap[rawtid]
+        st = stacks[t]
+        depth0 = not any(f[1] is not None for f in st)
+        # the slot view after an access is final when the thread STARTS its next access (the machine's test-and-add
+        # and remove + delete-when-empty are one step each)
+        if op not in ("set", "in", "add", "empty", "del"):
+            finalize(t)
+        if op == "get":
+            got_attr_err[t] = ans == "attrErr"
+        elif op == "set":
+            sid = msd                      # (for working-set entries the last field is the set identity)
+            is_swap = not got_attr_err[t]  # not the creation inside a factory: the swap of strategies/_subclasses.py
+            if is_swap:
+                if not depth0:
+                    raise Unmodelled("working-set swap while a hook factory is running")
+                finalize(t)
+            members[sid] = list(key)
+            slot[t] = sid
+            if is_swap:
+                P = " ".join(str(w.ix.get(id(c), 999)) for c in key)
+                for d in ("s", "u"):
+                    emit(d, t, f"(swap {t} ({P}))")
+            got_attr_err[t] = False
+        elif op == "del":
+            if ans == "unit":
+                slot[t] = None
+        elif op == "add":
+            members.setdefault(msd, [])
+            if key not in members[msd]:
+                members[msd].append(key)
+        elif op == "rm":
+            if ans == "unit" and key in members.get(msd, []):
+                members[msd].remove(key)
+        if op in ("in", "add", "rm"):
+            top = next((f for f in reversed(st) if f[1] is not None), None)
+            if top is None:
+                raise Unmodelled("working-set access outside any dispatch of a graph type")
+            d = top[0]
+            n = w.ix.get(id(key))
+            if n is None:
+                raise Unmodelled("working-set access for a class outside the graph")
+            if op == "in":
+                if ans:
+                    emit(d, t, f"({t} enter {n} rec)")
+            elif op == "add":
+                emit(d, t, f"({t} enter {n} ok)")
+            else:
+                emit(d, t, f"({t} exit {n} {'ok' if ans == 'unit' else 'key'})")
+            continue
+        if op in ("get", "set", "del", "empty"):
+            continue
+        d = msd_dir.get(id(msd))
+        if d is None:
+            raise Unmodelled("access to a dispatcher of another converter")
+        R = D[d]
+        if op == "cclr":
+            emit(d, t, f"({t} clear)")
+            continue
+        if op == "dclr":
+            if first_pass_only:            # a hook is being registered: the part of the run the machine describes is over
+                break
+            raise Unmodelled("clear_direct during the run")
+        n = node_of(d, key)
+        if n is not None and st and st[-1][1] is None:
+            raise Unmodelled("dispatch of a graph type nested in a type outside the graph")
+        if n is not None and st and any(f[0] != d for f in st if f[1] is not None):
+            raise Unmodelled("structure and unstructure generation nested in each other")
+        if op == "lru":
+            if n is not None:
+                emit(d, t, f"({t} lru {n} {ans})")
+                if depth0:
+                    R["calls"][t].append(n)
+                    if ans == "hit":
+                        R["outs"][t].append("ok")
+            if ans == "miss":
+                st.append([d, n, "lru"])
+        elif op == "dwc":
+            if n is not None and depth0:
+                # a top-level `get_*_hook(t, cache_result=False)`: modelled as the (cached) dispatch of a FRESH node
+                # whose factory does nothing but dispatch t without the cache
+                r = len(R["nodes"])
+                R["nodes"].append((0, 0, 0, [(n, 0)]))
+                R["calls"][t].append(r)
+                emit(d, t, f"({t} lru {r} miss)")
+                emit(d, t, f"({t} dir {r} miss)")
+                st.append([d, n, "top", r])
+            else:
+                st.append([d, n, "dwc"])
+        elif op == "dget":
+            if n is not None:
+                emit(d, t, f"({t} dir {n} {ans})")
+        elif op == "dset":
+            if n is not None:
+                emit(d, t, f"({t} wdir {n})")
+        elif op in ("lruw", "dwce", "dwcx"):
+            if not st or st[-1][0] != d or st[-1][1] != n:
+                raise Unmodelled("unbalanced dispatch log")
+            f = st.pop()
+            if f[2] == "top":
+                if op == "dwce":
+                    emit(d, t, f"({t} lruw {f[3]})")
+                    R["outs"][t].append("ok")
+                elif ans == "RecursionError":
+                    R["outs"][t].append("rec")
+                else:
+                    raise Unmodelled("a top-level dispatch raised " + str(ans))
+                continue
+            if op == "lruw" and n is not None:
+                emit(d, t, f"({t} lruw {n})")
+            if n is not None and f[2] == "lru" and not any(x[1] is not None for x in st):
+                if op == "lruw":
+                    R["outs"][t].append("ok")
+                elif ans == "RecursionError":
+                    R["outs"][t].append("rec")
+                else:
+                    raise Unmodelled("a top-level dispatch raised " + str(ans))
+    if any(stacks):
+        raise Unmodelled("a dispatch never returned")
+    for t in range(nthreads):
+        finalize(t)
+    return D
+
+
+def gensched_check(drv, chk, w, glog, tidmap, resubmit=False, first_pass_only=False):
+    """corr:C19:GENSCHED -- replay the OBSERVED interleaving of memo-table / working-set accesses of a real run on
+    the Lean generation machine (`replay` = `runSched` of the expanded schedule, theorem `replay_is_sched`): every
+    thread must perform, access by access, what the real thread did and get the same answers, and every top-level
+    dispatch must end the same way.  Returns None or a description."""
+    if not w.instrumented:
+        chk.note("gensched:not-instrumentable")
+        return None
+    try:
+        D = gensched_extract(w, glog, tidmap, first_pass_only)
+    except Unmodelled as e:
+        chk.note("gensched:unmodelled:" + str(e))
+        chk.unmodelled += 1
+        return None
+    nthreads = max(tidmap.values()) + 1
+    for d in ("s", "u"):
+        R = D[d]
+        if not R["events"]:
+            continue
+        calls = " ".join("(" + " ".join(map(str, c)) + ")" for c in R["calls"])
+        if not any(not e.startswith("(swap") for _, e in R["events"]):
+            continue
+        items = " ".join(e if e.startswith("(swap") else str(t) for t, e in R["events"])
+        rep = drv.ask(f"GENRUN 0 {graph_sx(R['nodes'])} ({calls}) (upto ({items}) 64)")
+        m = re.match(r"\(ok \(((?:\(\d(?: \(\d+ \w+\))*\) ?)*)\) \((.*?)\) \(((?:\([^()]*\) ?)*)\) "
+                     r"\(((?:\d+ ?|\(swap \d+ \([\d ]*\)\) ?)*)\) \(((?:\(\d+ (?:absent|\([\d ]*\))\) ?)*)\) ([01])\)$", rep)
+        if not m:
+            raise lean.InfraError("unexpected GENRUN upto reply: " + rep[:300])
+        threads = re.findall(r"\((\d)((?: \(\d+ \w+\))*)\)", m.group(1))
+        model_acc = re.findall(r"\([^()]*\)", m.group(3))
+        impl_acc = [f"({t} swap)" if e.startswith("(swap") else e for t, e in R["events"]]
+        model_views = [v if v == "absent" else "(" + " ".join(map(str, sorted(map(int, v[1:-1].split())))) + ")"
+                       for v in re.findall(r"\(\d+ (absent|\([\d ]*\))\)", m.group(5))]
+        chk.note(f"gensched:{d}", f"gensched-accesses:{min(len(impl_acc) // 50 * 50, 400)}+")
+        if nthreads > 1 and len({t for t, _ in R["events"]}) > 1:
+            sw = sum(1 for a, b in zip(R["events"], R["events"][1:]) if a[0] != b[0])
+            chk.note(f"gensched-interleaved:{'yes' if sw else 'no'}")
+        if model_acc != impl_acc:
+            k = next((i for i, (a, b) in enumerate(zip(model_acc, impl_acc)) if a != b), min(len(model_acc), len(impl_acc)))
+            return (f"direction={d}: access #{k} of the observed interleaving: implementation {impl_acc[k:k + 3]} "
+                    f"machine {model_acc[k:k + 3]} (after {impl_acc[max(0, k - 4):k]})")
+        if m.group(6) != "0":
+            return f"direction={d}: the machine deleted an absent attribute (fault) -- contradicts C19_slot_unobservable"
+        if model_views != R["views"] and [v.replace("absent", "()") for v in model_views] == \
+                [v.replace("absent", "()") for v in R["views"]]:
+            # same members everywhere, but the implementation keeps an EMPTY set where the model deletes the attribute
+            # (or the other way round): unobservable (C19_slot_unobservable), reported, not an alarm
+            chk.note("gensched:slot-presence-differs-from-model")
+            chk.unmodelled += 1
+        elif model_views != R["views"]:
+            k = next((i for i, (a, b) in enumerate(zip(model_views, R["views"])) if a != b), -1)
+            return (f"direction={d}: attribute slot after access #{k} {impl_acc[k] if k >= 0 else ''}: implementation "
+                    f"{R['views'][k] if k >= 0 else len(R['views'])}, machine {model_views[k] if k >= 0 else len(model_views)}")
+        else:
+            chk.note("gensched-slot-views-compared")
+        for t in range(nthreads):
+            fin, outs = threads[t]
+            mo = re.findall(r"\(\d+ (\w+)\)", outs)
+            mr = re.findall(r"\((\d+) \w+\)", outs)
+            if fin != "1" or mo != R["outs"][t] or mr != [str(c) for c in R["calls"][t]]:
+                return (f"direction={d} thread {t}: top-level dispatches {R['calls'][t]} ended {R['outs'][t]} in the "
+                        f"implementation, machine: finished={fin} {list(zip(mr, mo))}")
+        if resubmit:   # the expanded schedule through the plain `sched` form must give the same state (replay_is_sched)
+            rep2 = drv.ask(f"GENRUN 0 {graph_sx(R['nodes'])} ({calls}) (sched ({m.group(4)}) 0)")   # ABSTRACT machine
+            m2 = re.match(r"\(ok \(((?:\(\d(?: \(\d+ \w+\))*\) ?)*)\) \((.*)\)\)$", rep2)
+            if not m2 or m2.group(1) != m.group(1) or m2.group(2) != m.group(2):
+                raise lean.InfraError("GENRUN sched does not reproduce GENRUN upto: " + rep2[:200])
+            chk.note("gensched:resubmitted-as-sched")
+    return None
+
+
+# ------------------------------------------------------------------------------------------------ SWAP
+
+def gen_hier_graph(rng):
+    """A small class hierarchy (K0 and descendants: the classes `include_subclasses` puts in the working set) whose
+    members refer to each other, plus a few classes outside the hierarchy that refer into it."""
+    nu = rng.randint(2, 4)
+    kind = rng.choice(("attrs", "dc"))
+    classes = []
+    n = nu + rng.randint(0, 2)
+    for i in range(n):
+        inside = i < nu
+        fields = []
+        for f in range(rng.randint(1, 3)):
+            r = rng.random()
+            if r < 0.15:
+                ty = rng.choice(("int", "str"))
+            else:
+                j = rng.randrange(nu) if rng.random() < 0.75 else rng.randrange(n)
+                ty = [rng.choice(("ref", "ref", "list", "dict", "opt")), j]
+            fields.append([f"c{i}f{f}", ty])
+        c = {"kind": kind if inside else rng.choice(KINDS), "fields": fields}
+        if inside and i > 0:
+            c["base"] = rng.randrange(i)
+        classes.append(c)
+    # no TypedDict-only cycle (TypedDict structure hooks do not use the working set; see gen_graph)
+    for c in classes:
+        if c["kind"] == "td":
+            for f in c["fields"]:
+                if isinstance(f[1], list) and classes[f[1][1]]["kind"] == "td":
+                    f[1][1] = rng.randrange(nu)
+    return {"classes": classes, "union": nu}
+
+
+def swap_check(drv, chk, rng):
+    """corr:C19:SWAP -- the first pass of the real `include_subclasses(K0, converter, union_strategy=…)` (the only
+    place where cattrs swaps the working set: every other member of the hierarchy is FORCED to late binding) against
+    the refined generation machine with `swap` operations: accesses, answers, forced cycle detections, the attribute
+    slot after every access (an EMPTY set stays in the slot afterwards: it is not deleted), and the whole
+    working-set log against the thread-local log model."""
+    from cattrs.strategies import configure_tagged_union, include_subclasses
+    g = gen_hier_graph(rng)
+    w = World(g)
+    try:
+        TRACE.start()
+        try:
+            include_subclasses(w.cls[0], w.conv, union_strategy=configure_tagged_union)
+        except RecursionError:
+            chk.note("swap:include_subclasses-raised-RecursionError")     # (after the first pass: findings F47/F48)
+        except Exception as e:  # noqa: BLE001 - only the log of the first pass is used
+            chk.note("swap:include_subclasses-raised-" + type(e).__name__)
+        log = TRACE.stop()
+        glog = TRACE.glog
+    finally:
+        TRACE.stop()
+        w.close()
+        try:                        # the main thread's slot now holds an empty set: leave no state behind
+            del sys.modules["cattrs.gen._consts"].already_generating.working_set
+        except AttributeError:
+            pass
+    case = {"graph": g, "calls": [], "policy": sched.PreemptPolicy([0], {}).to_json(), "source": graph_source(g), "swap": True}
+    nswap = sum(1 for e in log if e[1] == "set" and e[3])
+    forced = sum(1 for e in log if e[1] == "in" and e[4])
+    chk.note(f"swap:swaps-with-members:{min(nswap, 4)}", f"swap:forced-cycle-detections:{min(forced, 6)}+")
+    bad = wslog_check(drv, w, log)
+    if bad:
+        return "corr:C19:WSLOG (include_subclasses) " + bad, case
+    bad = gensched_check(drv, chk, w, glog, {1000: 0}, resubmit=True, first_pass_only=True)
+    if bad:
+        return "corr:C19:SWAP " + bad, case
+    return None
+
+
 # ------------------------------------------------------------------------------------------------ runs
 
 def sequential_reference(g, calls):
@@ -410,6 +785,7 @@ def sequential_reference(g, calls):
             thread_fn(w, mine, out)()
             outs.append(out)
         log = TRACE.stop()
+        w.glog = TRACE.glog
         return outs, log, w
     finally:
         TRACE.stop()
@@ -423,6 +799,7 @@ def concurrent_run(g, calls, policy, record_points=False, want=None):
         TRACE.start()
         res = S.run([thread_fn(w, mine, outs[i]) for i, mine in enumerate(calls)])
         log = TRACE.stop()
+        w.glog = TRACE.glog
     finally:
         TRACE.stop()
     for i, r in enumerate(res):
@@ -470,7 +847,8 @@ def run(chk: framework.Check):
     n_sched = 16 if quick else 60
     budget = 100.0 if quick else 540.0      # safety net on an overloaded machine only; normally never reached
     total_points = total_sched = total_switch = 0
-    t_conc = 0.0
+    t_conc = t_gensched = 0.0
+    n_gensched = 0
     corr_fail = []          # (what, case) without an oracle failure on that very run
     oracle_failed = False
     empty_logs = 0
@@ -495,6 +873,9 @@ def run(chk: framework.Check):
             corr_fail.append(("corr:C19:WSLOG (sequential run) " + bad, case_of(g, calls, sched.PreemptPolicy(range(nthreads), {}))))
         if not log:
             empty_logs += 1
+        bad = gensched_check(drv, chk, w, w.glog, {1000: 0})
+        if bad:
+            corr_fail.append(("corr:C19:GENSCHED (sequential run) " + bad, case_of(g, calls, sched.PreemptPolicy(range(nthreads), {}))))
         for out in ref:
             for r in out:
                 chk.note("seq-result:" + (r[1] if r[0] == "exc" else "ok"))
@@ -510,7 +891,7 @@ def run(chk: framework.Check):
         want = sched.full_want if (not quick and gi % 10 == 3) else None
         if want is not None:
             chk.note("graph-with-unreduced-scheduling-points")
-        for pol in policies:
+        for pi, pol in enumerate(policies):
             tc = time.time()
             outs, log, w, S = concurrent_run(g, calls, pol, want=want)
             t_conc += time.time() - tc
@@ -533,10 +914,26 @@ def run(chk: framework.Check):
                 corr_fail.append(("corr:C19:WSLOG " + bad, case))
             if not log:
                 empty_logs += 1
+            tg = time.time()
+            bad = gensched_check(drv, chk, w, w.glog, {i: i for i in range(nthreads)}, resubmit=(pi == 0))
+            t_gensched += time.time() - tg
+            n_gensched += 1
+            if bad:
+                corr_fail.append(("corr:C19:GENSCHED " + bad, case))
             if any(e[1] == "in" and e[4] for e in log):
                 chk.note("schedule-with-cycle-detection")
         if chk.violations and len(chk.violations) >= 5:
             break
+    # ---- the working-set swap of strategies/_subclasses.py (sequential; the only place cattrs swaps the set)
+    n_swap = 0
+    for _ in range(40 if quick else 200):
+        if oracle_failed or time.time() - t0 > budget + 20:
+            break
+        r = swap_check(drv, chk, rng)
+        n_swap += 1
+        if r:
+            corr_fail.append(r)
+    chk.extra["swap_scenarios"] = n_swap
     # the state is no longer a threading.local / no access was observed although classes were generated
     if (not TRACE.is_local or empty_logs) and not oracle_failed:
         corr_fail.append((f"corr:C19:WSLOG the working-set log is EMPTY in {empty_logs} runs although hooks for classes were "
@@ -554,7 +951,9 @@ def run(chk: framework.Check):
     chk.extra["scheduling"] = {"graphs": graphs_done, "schedules": total_sched, "scheduling_points": total_points,
                                "thread_switches": total_switch,
                                "schedules_per_s": round(total_sched / max(t_conc, 1e-9), 1),
-                               "points_per_s": round(total_points / max(t_conc, 1e-9))}
+                               "points_per_s": round(total_points / max(t_conc, 1e-9)),
+                               "gensched_replays": n_gensched, "gensched_seconds": round(t_gensched, 1),
+                               "memo_tracing_installed": bool(TRACE.dwc_patched)}
     chk.assumptions = framework.TRUSTED_BASE + [
         "C19 is PARTIAL: interleavings are explored at statement (line-event) granularity inside cattrs source and "
         "cattrs-generated code; atomicity of single dict/set/lru_cache operations under the GIL is assumed",
@@ -568,7 +967,7 @@ def run(chk: framework.Check):
 def failing_input_search(chk, rng, corr_fail):
     """Correspondence is broken but no run violated the property yet: try harder (more graphs, aggressive schedules)."""
     t0 = time.time()
-    cases = [c for _, c in corr_fail if c is not None and c.get("graph")]
+    cases = [c for _, c in corr_fail if c is not None and c.get("graph") and c.get("calls")]
     tries = 0
     while time.time() - t0 < 25 and tries < 400:
         tries += 1
@@ -621,6 +1020,8 @@ def replay(case):
         print("no concrete case stored (global correspondence failure): re-run ./check C19 quick")
         return 1
     print(graph_source(g))
+    if case.get("swap"):
+        return replay_swap(g)
     for t, mine in enumerate(calls):
         for c in mine:
             print(f"thread {t}: {'structure' if c['op'] == 's' else 'unstructure'} root={ty_src(c['root'])} "
@@ -632,14 +1033,47 @@ def replay(case):
     outs, log, w, S = concurrent_run(g, calls, pol)
     drv = lean.Driver()
     bad = wslog_check(drv, w, log)
+
+    class _Chk:
+        unmodelled = 0
+
+        def note(self, *a):
+            pass
+    bad = bad or gensched_check(drv, _Chk(), w, w.glog, {i: i for i in range(len(calls))})
     drv.close()
     w.close()
     print(f"scheduling points={S.steps} switches={S.switches}")
     print("sequential:", ref)
     print("concurrent:", outs)
     print("oracle:", "holds" if outs == ref else "FAILS: " + first_diff(outs, ref))
-    print("working-set log vs model:", bad or ("agrees" if log else "EMPTY LOG (the working set is not the traced threading.local)"))
+    print("working-set log / observed interleaving vs model:", bad or ("agrees" if log else "EMPTY LOG (the working set is not the traced threading.local)"))
     return 0 if outs == ref and not bad else 1
+
+
+def replay_swap(g):
+    from cattrs.strategies import configure_tagged_union, include_subclasses
+
+    class _Chk:
+        unmodelled = 0
+
+        def note(self, *a):
+            pass
+    w = World(g)
+    TRACE.start()
+    try:
+        include_subclasses(w.cls[0], w.conv, union_strategy=configure_tagged_union)
+    except Exception as e:  # noqa: BLE001
+        print("include_subclasses raised", type(e).__name__)
+    log = TRACE.stop()
+    glog = TRACE.glog
+    w.close()
+    drv = lean.Driver()
+    bad1 = wslog_check(drv, w, log)
+    bad2 = gensched_check(drv, _Chk(), w, glog, {1000: 0}, first_pass_only=True)
+    drv.close()
+    print("working-set log vs model:", bad1 or "agrees")
+    print("first pass of include_subclasses vs the generation machine with swaps:", bad2 or "agrees")
+    return 0 if not bad1 and not bad2 else 1
 
 
 if __name__ == "__main__":
